@@ -70,12 +70,12 @@ theorem tight_inv {e : Prims.Fe} (h : Tight e) : Inv e := by
   simp only [Tight, Inv, Fe.Tight, Fe.Inv] at *
   omega
 
-theorem inv_u64 {e : Prims.Fe} (h : Inv e) : U64 e := by
+theorem inv_U64 {e : Prims.Fe} (h : Inv e) : U64 e := by
   obtain ⟨l0, l1, l2, l3, l4⟩ := e
   simp only [U64, Inv, Fe.Inv] at *
   omega
 
-theorem tight_u64 {e : Prims.Fe} (h : Tight e) : U64 e := inv_u64 (tight_inv h)
+theorem tight_u64 {e : Prims.Fe} (h : Tight e) : U64 e := inv_U64 (tight_inv h)
 
 /-! ### Add / Subtract / Negate -/
 
